@@ -105,6 +105,10 @@ class Waypoint(Envs.PositionComponent):
     """A user component derived from PositionComponent: a place the agent is heading for, not where it is."""
 
 
+class Energy(Core.Component):
+    """Something an agent picks up while it lives in the world."""
+
+
 class Bag(Core.Agent):
     """An agent class with its own notion of length (number of carried items): always 0 here."""
 
@@ -253,6 +257,9 @@ class Harness:
                 ops += [['move_to_kw', k, kw] for kw in self._menu['partial']]
                 ops.append(['remove', k])
                 ops.append(['remove_obj', k])
+                if self.rich and self.agents == ['a'] and list(self.dims) in ([3, 2], [3], [1.5, 1, 0]) and \
+                        Energy not in w.agents[k].components:
+                    ops.append(['gain', k])      # the agent picks up another component while it lives in the world
                 # placing an agent that is already in the world again (elsewhere): rejected, nothing moves
                 ops += [['readd', k, t] for t in self._menu['targets'][:3]]
         return ops
@@ -404,11 +411,19 @@ class Harness:
                 elif self._read(w, k) != before:
                     raise Violation(f'remove_agent(<agent object {k}>) kept the agent but moved it')
                 w.last = (kind, True, gone)
+        elif kind == 'gain':
+            c = Energy(a, w.model)
+            a.add_component(c)
+            w.model.systems.register_component(c)      # registered by hand, like any component attached to a resident
+            w.last = (kind, True, w.pos[k])
         elif kind == 'remove':
+            had = a.components.get(Energy)
             w.env.remove_agent(a.id)
             w.pos[k] = None
             if PC in a:
                 raise Violation('agent still carries a position after leaving the world')
+            if a.components.get(Energy) is not had:
+                raise Violation('leaving the world dropped a component the agent had picked up there (not its position)')
             if w.env.get_agent(a.id) is not None:
                 raise Violation('agent still resident after remove_agent')
             w.last = (kind, True, None)
